@@ -134,6 +134,14 @@ let parse_op (ws : string list) : map_op =
   | "capacity" -> OpCapacity
   | "allocsize" -> OpAllocationSize
   | "dropmap" -> OpDropMap
+  | "sinsert" -> OpSetInsert (z 1, z 2)
+  | "sreplace" -> OpSetReplace (z 1, z 2)
+  | "stake" -> OpSetTake (z 1)
+  | "sget" -> OpSetGet (z 1)
+  | "sgetorinsert" -> OpSetGetOrInsert (z 1, z 2)
+  | "sgetorinsertwith" -> OpSetGetOrInsertWith (z 1, z 2, z 3)
+  | "sremove" -> OpSetRemove (z 1)
+  | "sentry_insert" -> OpEntryOrInsert (z 1, z 2, Z0)
   | o -> failwith ("unknown op " ^ o)
 
 let kv_text (e : kv) = Printf.sprintf "%s:%s:%s" (string_of_z e.k_id) (string_of_z e.k_stamp) (string_of_z e.v_val)
@@ -151,6 +159,7 @@ let out_text (o : out) : string =
   | OutList l -> "list " ^ (if l = [] then "-" else String.concat "," (List.map kv_text l))
   | OutErrOccupied (s, v) -> Printf.sprintf "occupied %s %s" (string_of_z s) (string_of_z v)
   | OutUnwind -> "unwind"
+  | OutLibPanic -> "libpanic"
 
 let parse_out (s : string) : out option =
   let ws = words s in
@@ -167,6 +176,7 @@ let parse_out (s : string) : out option =
   | ["list"; l] -> Some (OutList (List.map parse_kv3 (String.split_on_char ',' l)))
   | ["occupied"; a; b] -> Some (OutErrOccupied (zs a, zs b))
   | "unwind" :: _ -> Some OutUnwind
+  | "libpanic" :: "new" :: "value" :: _ -> Some OutLibPanic     (* assert in get_or_insert_with *)
   | _ -> None
 
 let ev_text (evs : kv event list) : string =
@@ -270,6 +280,8 @@ let () =
   let cfg = { backend = sse2_backend; gw = 16; tsize = Z0; talign = Z0; needs_drop = true; hashes = []; rule = "mix"; eqrule = "lawful" } in
   let script = ref "" in
   let spec : kv list ref = ref [] in
+  let spec_other : kv list ref = ref [] in      (* abstract contents of the set that is not the current target *)
+  let tgt = ref "A" in
   let spec_valid = ref true in
   let steps = ref 0 and c_checked = ref 0 and c_skipped = ref 0 and b_checked = ref 0 and a_checked = ref 0 in
   let opcount : (string, int) Hashtbl.t = Hashtbl.create 31 in
@@ -287,8 +299,116 @@ let () =
   while !i < n do
     let l = lines.(!i) in
     (match strip_prefix "SCRIPT " l with
-     | Some s -> script := s; spec := []; spec_valid := true; cfg.hashes <- []; cfg.rule <- "mix"; cfg.eqrule <- "lawful"
+     | Some s -> script := s; spec := []; spec_other := []; tgt := "A"; spec_valid := true; cfg.hashes <- []; cfg.rule <- "mix"; cfg.eqrule <- "lawful"
      | None -> ());
+    (match strip_prefix "TGT " l with
+     | Some t -> let t = String.trim t in
+       if t <> !tgt then begin let x = !spec in spec := !spec_other; spec_other := x; tgt := t end
+     | None -> ());
+    (match strip_prefix "STEP2 " l with
+     | Some s when !i + 8 < n ->
+       (* binary set operation: A op B *)
+       if !tgt <> "A" then begin let x = !spec in spec := !spec_other; spec_other := x; tgt := "A" end;
+       let ws = words s in
+       let stepno = List.hd ws and opname = List.nth ws 1 in
+       let get p k = (match strip_prefix p lines.(!i + k) with Some a -> a | None -> "") in
+       let arm = get "ARM " 1 and prea_s = get "PREA " 2 and preb_s = get "PREB " 3 and ret_s = get "RET " 4 in
+       let ev_s = String.trim (get "EV" 5) and post_s = get "POST " 6 and postb_s = get "POSTB " 7 and chk_s = get "CHK " 8 in
+       i := !i + 8;
+       incr steps;
+       bump opcount opname;
+       let where = Printf.sprintf "script=%s step=%s op=[%s]" !script stepno opname in
+       (try
+         let prea = parse_dump prea_s and preb = parse_dump preb_s and post = parse_dump post_s and postb = parse_dump postb_s in
+         let ta = table_of_dump prea and tb = table_of_dump preb and tpost = table_of_dump post in
+         let la = occupants ta and lb = occupants tb in
+         if chk_s <> "ok" then say "H-FAIL %s: harness check: %s" where chk_s;
+         if dump_text preb <> dump_text postb then say "A-FAIL %s: the right-hand set changed" where;
+         let key (e : kv) = e.k_id in
+         let lawful = cfg.rule <> "calldep" && cfg.eqrule = "lawful" in
+         let hasher (e : kv) = hash_of None e.k_id in
+         if do_b then begin
+           incr b_checked;
+           if not (safe_wf_check cfg.backend tpost) then say "B-FAIL %s: post-state violates SafeWF: %s" where (dump_text post)
+           else if lawful && not (hash_wf_check cfg.backend hasher tpost) then say "B-FAIL %s: post-state violates Tags/Reach: %s" where (dump_text post)
+         end;
+         let listret l = "list " ^ (if l = [] then "-" else String.concat "," (List.map kv_text l)) in
+         let zcmp a b = if Z.eqb a b then 0 else if Z.ltb a b then -1 else 1 in
+         let kvcmp (x : kv) (y : kv) = let c = zcmp x.k_id y.k_id in if c <> 0 then c else zcmp x.k_stamp y.k_stamp in
+         let setret l = "set " ^ (if l = [] then "-" else String.concat "," (List.map kv_text (List.sort kvcmp l))) in
+         let boolret b = if b then "bool 1" else "bool 0" in
+         let in_l (e : kv) l = List.exists (fun (x : kv) -> Z.eqb x.k_id e.k_id) l in
+         (* mathematical results from the abstract contents (level A) *)
+         let sa = !spec and sb = !spec_other in
+         let m_union = sa @ List.filter (fun e -> not (in_l e sa)) sb in
+         let m_inter = List.filter (fun e -> in_l e sb) sa in
+         let m_diff = List.filter (fun e -> not (in_l e sb)) sa in
+         let m_sym = m_diff @ List.filter (fun e -> not (in_l e sa)) sb in
+         let keys l = List.sort compare (List.map (fun (e : kv) -> string_of_z e.k_id) l) in
+         let same_keys l1 l2 = keys l1 = keys l2 in
+         let parse_list s = (match parse_out s with Some (OutList l) -> Some l | _ -> None) in
+         let unchanged () = if dump_text prea <> dump_text post then say "A-FAIL %s: a read-only operation changed the set" where in
+         let check_list (modelseq : kv list) (math : kv list) =
+           unchanged ();
+           incr c_checked;
+           if do_c && ret_s <> listret modelseq then say "C-MISMATCH %s: model [%s] impl [%s]" where (listret modelseq) ret_s;
+           incr a_checked;
+           (match parse_list ret_s with
+            | Some l ->
+              if not (same_keys l math) || List.length l <> List.length math then
+                say "A-FAIL %s: result is not the mathematical set: expected keys [%s] got [%s]" where (String.concat "," (keys math)) (String.concat "," (keys l))
+            | None -> say "A-FAIL %s: unparsable result [%s]" where ret_s) in
+         let check_bool (modelb : bool) (math : bool) =
+           unchanged ();
+           incr c_checked; incr a_checked;
+           if do_c && ret_s <> boolret modelb then say "C-MISMATCH %s: model [%s] impl [%s]" where (boolret modelb) ret_s;
+           if ret_s <> boolret math then say "A-FAIL %s: expected %s got [%s]" where (boolret math) ret_s in
+         let subset x y = List.for_all (fun e -> in_l e y) x in
+         let check_newset (modell : kv list) (math : kv list) =
+           unchanged ();
+           incr c_checked; incr a_checked;
+           if do_c && ret_s <> setret modell then say "C-MISMATCH %s: model [%s] impl [%s]" where (setret modell) ret_s;
+           let got = (match strip_prefix "set " ret_s with Some "-" -> [] | Some r -> List.map parse_kv3 (String.split_on_char ',' r) | None -> []) in
+           if not (same_keys got math) then say "A-FAIL %s: operator result is not the mathematical set: expected keys [%s] got [%s]" where (String.concat "," (keys math)) (String.concat "," (keys got)) in
+         let check_assign (op2 : set2_op) (math : kv list) =
+           incr a_checked;
+           let contents = occupants tpost in
+           if not (same_keys contents math) then
+             say "A-FAIL %s: contents after the assigning operator are not the mathematical set: expected keys [%s] got [%s]" where (String.concat "," (keys math)) (String.concat "," (keys contents));
+           spec := contents;
+           if do_c && lawful && arm = "-" then begin
+             incr c_checked;
+             (match set2_step cfg.backend cfg.tsize cfg.talign cfg.needs_drop rehash_guard_unconditional (hash_of None) false ta lb op2 with
+              | Fail e -> say "C-MISMATCH %s: model stops with %s" where (err_text e)
+              | Ok ((t', o), evs) ->
+                if table_text t' <> dump_text post then say "C-MISMATCH %s: post-state: model [%s] impl [%s]" where (table_text t') (dump_text post);
+                let me = ev_text evs and ie = (if ev_s = "" then "-" else ev_s) in
+                if me <> ie then say "C-MISMATCH %s: events: model [%s] impl [%s]" where me ie)
+           end in
+         (match opname with
+          | "union" -> check_list (union key la lb) m_union
+          | "intersection" -> check_list (intersection key la lb) m_inter
+          | "difference" -> check_list (difference key la lb) m_diff
+          | "symdiff" -> check_list (symmetric_difference key la lb) m_sym
+          | "is_subset" -> check_bool (is_subset key la lb) (subset sa sb)
+          | "is_superset" -> check_bool (is_superset key la lb) (subset sb sa)
+          | "is_disjoint" -> check_bool (is_disjoint key la lb) (m_inter = [])
+          | "eq" -> check_bool (set_eq key la lb) (subset sa sb && subset sb sa)
+          | "bitor" -> check_newset (union key la lb) m_union
+          | "bitand" -> check_newset (intersection key la lb) m_inter
+          | "bitxor" -> check_newset (symmetric_difference key la lb) m_sym
+          | "sub" -> check_newset (difference key la lb) m_diff
+          | "or_assign" -> check_assign OpOrAssign m_union
+          | "and_assign" -> check_assign OpAndAssign m_inter
+          | "xor_assign" -> check_assign OpXorAssign m_sym
+          | "sub_assign" -> check_assign OpSubAssign m_diff
+          | o -> say "D-ERROR %s: unknown binary op %s" where o);
+         if List.length la <= List.length lb then bump branch "set_a_smaller_or_equal" else bump branch "set_a_larger";
+         Hashtbl.replace distinct (opname ^ "|" ^ prea_s ^ "|" ^ preb_s) ()
+       with
+       | Failure m -> say "D-ERROR %s: driver failure %s" where m
+       | Not_found -> say "D-ERROR %s: driver parse failure" where)
+     | _ -> ());
     (match strip_prefix "CFG " l with
      | Some s ->
        let m = kvmap (words s) in
@@ -334,7 +454,7 @@ let () =
          let lawful = cfg.rule <> "calldep" && cfg.eqrule = "lawful" in
          let hf = hash_of None in
          let hasher (e : kv) = hf e.k_id in
-         let is_libpanic = (match strip_prefix "libpanic" ret_s with Some _ -> true | None -> false) in
+         let is_libpanic = (match strip_prefix "libpanic" ret_s with Some _ -> parse_out ret_s = None | None -> false) in
          if is_libpanic then say "A-FAIL %s: the library panicked: %s" where ret_s;
          let ret = parse_out ret_s in
          (* ---- level B ---- *)
